@@ -77,6 +77,11 @@ pub fn gen_history(seed: u64, idx: usize, to: Fmt, cl: &mut Classes) -> History 
                 let d = if n >= 17 {
                     // many small documents, scalars first
                     if j == 0 { Val::Int(j as i128) } else { gen_doc(&mut rng, &GenOpts { max_depth: 1, max_width: 2, ..GenOpts::common() }, cl) }
+                } else if idx % 250 == 249 && j == 0 {
+                    // a document with thousands of entries between ordinary ones: a collection written with a
+                    // wrong length would spill into extra top-level documents
+                    feats.hit("heavy_document");
+                    crate::gen::gen_heavy_doc(&mut rng)
                 } else if rng.chance(1, 6) {
                     feats.hit("boundary_padded_document");
                     let target = *rng.pick(&[8192usize, 16384]) + rng.range(0, 4) - 2;
